@@ -250,6 +250,149 @@ func c15Round(r *Run, idx int) {
 	}
 }
 
+// c15Script follows ONE key through a PRNG-chosen life on a hybrid / hybrid-loading cache: stored by Set or by the
+// loader, with or without TTL; forced out of memory (the package's own eviction event, hand-off awaited through
+// H4); its deadline passing under virtual time while it lives in either tier; deleted; stored again. After every
+// demotion of a live value the next Get must return that value without a loader run - also when the value now
+// being demoted replaced an expired or deleted predecessor whose copy the secondary store may still have held.
+func c15Script(r *Run, idx int) {
+	rng := r.Rng(int64(15500 + idx))
+	kind := []string{"hybrid", "hybrid-loading"}[idx%2]
+	bar := &secBarrier{}
+	internal.VerifSetHook(bar.hook)
+	defer internal.VerifSetHook(nil)
+	defer r.Eval(1)
+	var loads atomic.Int64
+	var loadTTL atomic.Int64
+	a, err := newAnyCache(kind, anyOpts{MaxSize: 50, KeepLog: true, Workers: 1 + rng.Intn(2), Prob: 1, ProbSet: true,
+		Loader: func(ctx context.Context, k int) (theine.Loaded[int64], error) {
+			n := loads.Add(1)
+			return theine.Loaded[int64]{Value: 7_000_000 + n, Cost: 1, TTL: time.Duration(loadTTL.Load())}, nil
+		}})
+	if err != nil {
+		r.Broken("build: %v", err)
+		return
+	}
+	defer a.store().Close()
+	st := a.store()
+	k := 100 + rng.Intn(1000)
+	var steps []string
+	step := func(f string, x ...any) { steps = append(steps, fmt.Sprintf(f, x...)) }
+	type live struct {
+		val      int64
+		deadline int64 // latest possible, 0 = none
+		demoted  bool
+	}
+	var cur *live
+	seq := int64(0)
+	pickTTL := func() time.Duration {
+		if rng.Intn(5) < 2 {
+			return 0
+		}
+		return time.Duration(5+rng.Intn(200)) * time.Second
+	}
+	demotions, checked := 0, 0
+	for i := 0; i < 20; i++ {
+		// state-dependent choice, so that the long chains (store - demote - expire - store again - demote - Get) are common
+		x := rng.Intn(100)
+		switch {
+		case cur == nil:
+			x = []int{0, 30}[rng.Intn(2)] // Set | Get
+		case !cur.demoted:
+			x = []int{60, 60, 60, 60, 60, 60, 85, 0, 30, 95}[rng.Intn(10)] // mostly demote
+		default:
+			x = []int{30, 30, 30, 30, 85, 85, 85, 95, 0, 0}[rng.Intn(10)] // Get | expire | Delete | Set
+		}
+		switch {
+		case x < 25: // store by Set
+			ttl := pickTTL()
+			seq++
+			v := int64(idx)<<16 | seq
+			if !a.set(k, v, 1, ttl) {
+				step("Set(%d,%d,ttl %v) -> false", k, v, ttl)
+				continue
+			}
+			cur = &live{val: v}
+			if ttl > 0 {
+				cur.deadline = st.VerifNowNano() + int64(ttl)
+			}
+			step("Set(%d,%d,ttl %v)", k, v, ttl)
+		case x < 60: // Get
+			ttl := pickTTL()
+			loadTTL.Store(int64(ttl))
+			l0 := loads.Load()
+			v, ok, err := a.get(context.Background(), k)
+			ran := loads.Load() > l0
+			step("Get(%d) -> (%d,%v,err=%v) loader ran: %v", k, v, ok, err, ran)
+			if err != nil {
+				continue
+			}
+			if cur != nil && cur.demoted {
+				checked++
+				r.Count("gets_after_a_demotion", 1)
+				if ran || !ok || v != cur.val {
+					key := "evicted-entry-not-retrievable"
+					if ran {
+						key += "/reloaded-instead"
+					}
+					key += "/after-a-predecessor-expired-or-was-deleted"
+					_, inSec := a.sec.peek(k)
+					r.Violate(key, fmt.Sprintf("script %d (%s): value %d was evicted from memory with the hand-off processed, yet the next Get returned (%d,%v), loader ran: %v; in secondary store now: %v; steps: %v", idx, kind, cur.val, v, ok, ran, inSec, steps),
+						map[string]any{"script": idx, "cache": kind, "steps": steps, "secondary_log": tailLog(a.sec.log(), 12)})
+					return
+				}
+				cur.demoted = false // promoted again
+			}
+			if ran {
+				cur = &live{val: v}
+				if ttl > 0 {
+					cur.deadline = st.VerifNowNano() + int64(ttl)
+				}
+			}
+		case x < 80: // demote
+			if cur == nil || cur.demoted {
+				continue
+			}
+			a.wait()
+			if !bar.demote(a, k) {
+				step("forced eviction of %d did not settle", k)
+				r.Inconclusive(1)
+				return
+			}
+			cur.demoted = true
+			demotions++
+			_, inSec := a.sec.peek(k)
+			step("forced eviction of %d -> in secondary store: %v", k, inSec)
+		case x < 92: // the deadline passes
+			if cur == nil || cur.deadline == 0 {
+				continue
+			}
+			d := time.Duration(cur.deadline-st.VerifNowNano()) + time.Second
+			if d < time.Second {
+				d = time.Second
+			}
+			a.wait()
+			st.VerifShiftClock(d, true)
+			st.VerifRefreshClock()
+			step("virtual time +%v (deadline passed while in %s)", d, map[bool]string{true: "the secondary tier", false: "memory"}[cur.demoted])
+			cur = nil
+		default:
+			if err := a.del(k); err == nil {
+				step("Delete(%d)", k)
+				cur = nil
+			}
+		}
+	}
+	r.Count("scripted_lives", 1)
+	r.Count("scripted_demotions", int64(demotions))
+	if checked > 0 {
+		r.Distinct(fmt.Sprintf("script/%s/%d", kind, idx))
+	}
+	if idx < 2 {
+		r.Sample(4, map[string]any{"script": idx, "cache": kind, "steps": steps})
+	}
+}
+
 func secHas(a *anyCache, k int) string {
 	if rec, ok := a.sec.peek(k); ok {
 		return fmt.Sprintf("yes (value %#x, expire %d)", rec.Val, rec.Expire)
@@ -258,13 +401,19 @@ func secHas(a *anyCache, k int) string {
 }
 
 func runC15(r *Run) {
-	r.Rule("case = one round on a hybrid / hybrid-loading cache with admission probability 1: 3-6 x MaxSize keys stored by Set and by the loader, with / without TTL, optional Deletes, paced so that the hand-off queue never overflows (barrier = all events applied and hooks H4 enqueued == processed); at each barrier every stored key must be retrievable with its latest value without a loader run and the memory tier must hold <= MaxSize; every third round the secondary store fails 20/50/100% of its Sets (error-handler count, bounded memory). Non-trivial = a round in which the secondary store received at least one Set; distinct by configuration")
+	r.Rule("case = one round on a hybrid / hybrid-loading cache with admission probability 1: 3-6 x MaxSize keys stored by Set and by the loader, with / without TTL, optional Deletes, paced so that the hand-off queue never overflows (barrier = all events applied and hooks H4 enqueued == processed); at each barrier every stored key must be retrievable with its latest value without a loader run and the memory tier must hold <= MaxSize; every third round the secondary store fails 20/50/100% of its Sets (error-handler count, bounded memory); or one scripted life of a single key (stored by Set / loader, TTL or not, forced out of memory, deadline passing under virtual time in either tier, deleted, stored again) in which every Get after a processed demotion must return the demoted value without a loader run. Non-trivial = a round in which the secondary store received at least one Set; distinct by configuration")
 	r.Assume("workers are given time to keep up (the property's own condition): the round waits for the hand-off hooks between batches",
 		"secondary-store failures are injected on Set only, so that retrievability of what is already there is not in question in failing rounds")
 	n := r.Pick(48, 2400)
 	for i := 0; i < n; i++ {
 		if i%r.NShards == r.Shard {
 			c15Round(r, i)
+		}
+	}
+	ns := r.Pick(400, 20000)
+	for i := 0; i < ns; i++ {
+		if i%r.NShards == r.Shard {
+			c15Script(r, i)
 		}
 	}
 }
